@@ -288,7 +288,9 @@ def verify(h, repo, tier="quick", log=None):
             return ("ok", res, goals, st)
 
         try:
-            for pidx, (c, out) in enumerate(explore(run, make_ctx, budget_s=(getattr(h, 'budget_s', 240) if tier == 'quick' else getattr(h, 'budget_s_thorough', 1500)))):
+            case_budget = getattr(h, 'budget_s', 240) if tier == 'quick' else getattr(h, 'budget_s_thorough', 1500)
+            t_case = time.time()
+            for pidx, (c, out) in enumerate(explore(run, make_ctx, budget_s=case_budget)):
                 stats["paths"] += 1
                 stats["solver_calls"] += c.solver_calls
                 pname = f"{h.name}[{cname}]/path{pidx}"
@@ -349,6 +351,8 @@ def verify(h, repo, tier="quick", log=None):
                                           f"violates {rx['violated']}", witness=wx, case=case))
                 for gname, goal in goals:
                     oname = f"{pname}/{gname}"
+                    if time.time() - t_case > 1.5 * case_budget:
+                        raise Unsupported(f"time budget of this case used up inside path {pidx} (after {len(obs)} obligations)")
                     if isinstance(goal, FrameViolation):
                         obs.append(Ob(oname, "REFUTED", backend="frame-snapshot" if gname.startswith("frame") else "ast",
                                       kind="frame" if gname.startswith("frame") else ("cache-key" if gname.startswith("cache-key") else "alignment"),
